@@ -52,7 +52,7 @@ def ensure_setup(needs):
 
 def child_env(mod, extra=None):
     env = dict(os.environ)
-    pp = ["/repo", ROOT, os.path.join(ROOT, ".deps_hyp")]
+    pp = [os.environ.get("VF_REPO", "/repo"), ROOT, os.path.join(ROOT, ".deps_hyp")]
     if "deps" in getattr(mod, "NEEDS", ()):
         pp.append(os.path.join(ROOT, ".deps"))
     if "fsgate" in getattr(mod, "NEEDS", ()):
